@@ -32,6 +32,12 @@ prop('C04', prefix=['c04'], bounds=UM_BOUNDS + '; arguments unconstrained (any i
      outside=UM_OUT + '; operations taking text that needs parsing')
 prop('C28', prefix=['c01', 'c28'], bounds=UM_BOUNDS + '; selection setters with unconstrained arguments',
      outside='keyboard navigation / page up-down (pixel arithmetic over float sums), duplicate_sheet (parser), operations on sheets with cells')
+prop('C11', prefix=['c11'],
+     bounds='every ASCII string of length <=3 (<=4 thorough) through the real formula lexer in A1 and R1C1 mode (en locale/language) until EOF, and through the '
+            'number-format lexer + parser and the date-format detector; length <=4 through column_to_number, parse_reference_a1/r1c1, is_valid_identifier, '
+            'is_valid_column, quote_name.  The number recogniser (C19) and the F4 kernel (C34) are panic-checked by their own harnesses',
+     outside='the formula parser, formula completion, set_user_input on the models, the number formatter (float to digits), non-ASCII text, longer strings, '
+             'other locales/languages')
 prop('C12', prefix=['c12'],
      bounds='references: row/column/position/count any i32 inside the grid, sheet indices any u32; ranges: corners, context, position, count in '
             'rows 1..=120 x columns 1..=30 (whole grid in the thorough tier), whole-column/whole-row ranges at the real grid limits; '
@@ -60,8 +66,9 @@ prop('C19', prefix=['c19'],
      outside='the numeric value of a digit string (f64::from_str: validity is its documented grammar, the value is uninterpreted), dates, white space '
              'handling, non-ASCII currency symbols and separators, what Model::set_user_input does with the result')
 prop('C22', prefix=['c22'],
-     bounds='all 16384 column numbers (one symbolic i32); every ASCII column string of length 0..=4',
-     outside='A1/R1C1 printing+parsing of whole references, sheet-name quoting vs the lexer, non-ASCII text')
+     bounds='all 16384 column numbers (one symbolic i32); every ASCII column string of length 0..=4; every valid sheet name over printable ASCII of '
+            'length <=2 (<=3 thorough) quoted by quote_name and read back by the real lexer',
+     outside='A1/R1C1 print->parse of references and ranges (the A1 printer is checked against an independent text builder under C16), longer and non-ASCII sheet names')
 prop('C27', prefix=['c27', 'c29'],
      bounds='<=2 column descriptors / <=2 row records (in-grid, well-formed pre-state), one Model-level structural edit '
             '(insert/delete any position and count; move block <=2, offset <=2) on a cell-free sheet',
@@ -71,14 +78,21 @@ prop('C29', prefix=['c29'],
      bounds='<=2 column descriptors, <=2 row records; one setter call from an arbitrary well-formed state; '
             'widths/heights any finite f64 in 0..=1e6 where only carried, 8/13/21/34 where the setter converts units',
      outside='Model-level wrappers (sheet lookup), sequences (covered inductively by the arbitrary pre-state)')
+prop('C30', prefix=['c30'],
+     bounds='style attribute space: number format in {general, 0.00 (built-in), 0.000 (custom), @ (text)}, fill colour or none, alignment or none, symbolic '
+            'bold/italic/size/wrap/quote prefix; two styles interned in sequence into the default pools, three for number formats alone; two cells through '
+            'Model::set_cell_style / get_style_for_cell',
+     outside='font names/colours, borders (neighbour logic), named styles and style includes, row/column style plumbing above the pool (C29 checks the '
+             'row/column records), xlsx import/export of the pools')
 prop('C33', prefix=['c33'],
      bounds='CF coordinates: row/column/position/count/offset any i32 inside the grid, sheet ids any u32; links: 2 links at any distinct in-grid '
             'cells, insert/delete any position and count, block move <=2 by |offset| <=2',
      outside='CF rule formulas (parser), sqref strings, clear-removes-link and its undo, cut/paste orchestration')
 prop('C34', prefix=['c34'],
      bounds='reference/range token texts assembled from symbolic pieces: optional leading space, no / unquoted 2-letter / quoted sheet prefix, endpoints '
-            '[$]letters{1,2}[$]digits{1,2} | [$]letters | [$]digits, single or a:b; arbitrary ASCII text of length <=4 (<=6 thorough) for "touches only $ and case"',
-     outside='the tokenizer inside cycle_reference (which references the cursor touches, cursor arithmetic), non-ASCII text, longer tokens')
+            '[$]letters{1,2}[$]digits{1,2} | [$]letters | [$]digits, single or a:b; arbitrary ASCII text of length <=4 (<=6 thorough) for "touches only $ and case"; '
+            'cycle_reference with the real tokenizer on =<ref or range with optional sheet prefix>+<ref>, symbolic $ markers, every cursor position / selection',
+     outside='formulas other than =<ref>+<ref> for the cursor rule, non-ASCII text, longer tokens')
 
 
 def log(*a):
